@@ -15,7 +15,15 @@
   * groups the rows by their names into transformers (Secondary/Primary A,B,C), panel line triples
     (`… I_a/b/c`) and pods (everything else).  The grouping is NOT trusted: `Acn.Sites.topoOk`
     re-derives every row from the EVSE sets and the theorem `site_structure_*` checks it by
-    `decide +kernel`.
+    `decide +kernel`;
+  * EXECUTES every factory (and the deprecated wrapper) with NO arguments at all and records, next to the
+    limits the object then carries, the defaults of its signature (`defaultInsts`): the theorem
+    `site_default_ratings` pins them to the documented ratings.
+
+`gen_simple()` (-> lean/AcnModel/Gen/SimpleAcn.lean) does the same for `simple_acn` (auto_acn.py): the
+expressions passed to `register_evse` / `add_constraint` are read from the AST as expression trees over the
+two parameters `aggregate_cap` and `voltage` (`(aggregate_cap / voltage) * 1000`), the signature defaults are
+recorded, and a fixed list of calls is executed and dumped.
 """
 from __future__ import annotations
 
@@ -432,6 +440,15 @@ def _topo_of(site, cap_names, net, formulas, voltage):
            (("\n    " + sep.join(ps)) if ps else ""), (("\n    " + sep.join(pd_)) if pd_ else "")))
 
 
+def _is_num(x):
+    return isinstance(x, (int, float)) and not isinstance(x, bool) and x == x and abs(x) != float("inf")
+
+
+def _signature_defaults(fn):
+    import inspect
+    return {k: p.default for k, p in inspect.signature(fn).parameters.items() if p.default is not inspect.Parameter.empty}
+
+
 def gen_sites() -> str:
     if REPO not in sys.path:
         sys.path.insert(0, REPO)
@@ -480,13 +497,253 @@ def gen_sites() -> str:
                 else:
                     net = getattr(mod, factory)(basic, voltage, *caps)
                 record(site, factory, cap_names, formulas, net, basic, caps, voltage)
+    # every factory with NO arguments: what a user who relies on the documented defaults gets.  `caps`, `basic` and the
+    # nominal voltage recorded for these calls are the defaults of the live signature (not what this file believes)
+    n_explicit = len(insts)
+    default_notes = []
+    with warnings.catch_warnings(), contextlib.redirect_stdout(io.StringIO()):
+        warnings.simplefilter("ignore")
+        for site, fname, factory, cap_names, _settings in list(SITES) + list(WRAPPERS):
+            mod = importlib.import_module("acnportal.acnsim.network.sites." + fname[:-3])
+            if not hasattr(mod, factory):
+                continue
+            try:
+                fn = getattr(mod, factory)
+                sig = _signature_defaults(fn)
+                caps = [sig[c] for c in cap_names]
+                basic, voltage = sig["basic_evse"], sig["voltage"]
+                if not all(_is_num(x) for x in caps + [voltage]) or not isinstance(basic, bool):
+                    raise ValueError(f"defaults of {factory} are not plain numbers / a bool: {sig}")
+                formulas = parse_formulas(fname, factory, cap_names)
+                record(site, factory, cap_names, formulas, fn(), basic, caps, voltage)
+            except Exception as e:  # noqa: BLE001 — the obligation `site_default_ratings` then misses this factory
+                default_notes.append(f"{factory}() not recorded: {type(e).__name__}: {e}".replace("-/", "- /"))
+    default_insts = insts[n_explicit:]
+    del insts[n_explicit:]
     for k, t in enumerate(topos):
         out.append(f"/-- topology {k}: {topo_site[k]} -/\ndef topo{k} : Topo :=\n{t}\n")
     out.append("def topos : List Topo := [" + ", ".join(f"topo{k}" for k in range(len(topos))) + "]\n")
     out.append("def insts : List Inst := [\n  " + ",\n  ".join(insts) + "]\n")
+    out.append("/-- every factory called with NO arguments; `basic`, `caps` (and the nominal voltage of the topology) are the\n"
+               "    defaults of the live signature" + "".join("\n    " + n for n in default_notes) + " -/\n"
+               "def defaultInsts : List Inst := [\n  " + ",\n  ".join(default_insts) + "]\n")
     out.append("end Acn.Gen.Sites")
     return "\n".join(out) + "\n"
 
 
+# ----------------------------------------------------------------------------- simple_acn (auto_acn.py)
+
+SIMPLE_FILE = "auto_acn.py"
+# the calls that are executed and dumped: (station ids, keyword arguments); an argument that is absent is NOT passed
+SIMPLE_CALLS = [
+    (["s0"], {}),
+    (["a", "b", "c"], {}),
+    (["PS-%03d" % i for i in range(54)], {"evse_type": "AeroVironment", "voltage": 240, "aggregate_cap": 225.5}),
+    (["x", "y"], {"evse_type": "ClipperCreek", "voltage": 277, "aggregate_cap": 7.5}),
+    (["p", "q", "r", "s", "t"], {"evse_type": "BASIC", "voltage": 120, "aggregate_cap": 40}),
+    (["only"], {"voltage": 208.0, "aggregate_cap": 0.5}),
+    (["u", "v", "w", "z"], {"aggregate_cap": 80}),
+    (["m", "n"], {"voltage": 480}),
+]
+
+SIMPLE_HEADER = """/- GENERATED by harness/translate_sites.py (gen_simple) from acnportal/acnsim/network/sites/auto_acn.py — do not edit. -/
+namespace Acn.Gen.SimpleAcn
+
+/-- an arithmetic expression over the two numeric parameters of `simple_acn`, as written in the source
+    (`unknown`: something the translator cannot read) -/
+inductive SExpr where
+  | cap | voltage | lit (n : Int) (d : Nat)
+  | mul (a b : SExpr) | div (a b : SExpr) | add (a b : SExpr) | sub (a b : SExpr) | neg (a : SExpr) | unknown
+  deriving DecidableEq, Repr
+
+/-- one executed call `simple_acn(ids, …)`; `none` / "" = the argument was NOT passed (signature default) -/
+structure Inst where
+  ids : List String
+  evseType : String
+  voltage : Option (Int × Nat)
+  cap : Option (Int × Nat)
+  stations : List String
+  angles : List (Int × Nat)
+  voltages : List (Int × Nat)
+  conNames : List String
+  rows : List (List (Nat × Int × Nat))
+  limits : List (Int × Nat)
+  maxRates : List (Int × Nat)
+  continuous : Bool
+  levels : List (Int × Nat)
+  deriving DecidableEq, Repr
+
+"""
+
+
+class _SimpleAst:
+    """reads `simple_acn`: the arguments of the one `register_evse` call in the loop over `station_ids` and of the
+    `add_constraint` call, with local names resolved through the straight-line assignments before them"""
+
+    def __init__(self, src, fn):
+        self.src = src
+        self.fn = fn
+        self.env = {}
+        self.reg = []     # (voltage expr, angle expr, loops over station_ids?, evse type is the parameter?)
+        self.cons = []    # (limit expr, name, covers station_ids?)
+        self.station_lists = {"station_ids"}
+
+    def ex(self, node):
+        if isinstance(node, ast.Constant) and isinstance(node.value, (int, float)) and not isinstance(node.value, bool):
+            txt = ast.get_source_segment(self.src, node) or repr(node.value)
+            try:
+                fr = Fraction(txt.replace("_", ""))
+            except Exception:
+                fr = Fraction(node.value)
+            return f"(.lit {fr.numerator} {fr.denominator})" if fr >= 0 else f"(.neg (.lit {-fr.numerator} {fr.denominator}))"
+        if isinstance(node, ast.Name):
+            if node.id in self.env:
+                return self.env[node.id]
+            if node.id == "aggregate_cap":
+                return ".cap"
+            if node.id == "voltage":
+                return ".voltage"
+            return ".unknown"
+        if isinstance(node, ast.BinOp):
+            op = {ast.Mult: "mul", ast.Div: "div", ast.Add: "add", ast.Sub: "sub"}.get(type(node.op))
+            if op is None:
+                return ".unknown"
+            return f"(.{op} {self.ex(node.left)} {self.ex(node.right)})"
+        if isinstance(node, ast.UnaryOp) and isinstance(node.op, ast.USub):
+            return f"(.neg {self.ex(node.operand)})"
+        if isinstance(node, ast.UnaryOp) and isinstance(node.op, ast.UAdd):
+            return self.ex(node.operand)
+        return ".unknown"
+
+    def _args(self, call, names):
+        got = {}
+        for i, a in enumerate(call.args):
+            if i < len(names):
+                got[names[i]] = a
+        for k in call.keywords:
+            if k.arg in names:
+                got[k.arg] = k.value
+        return got
+
+    def walk(self, body, loop_over=None):
+        for st in body:
+            if isinstance(st, ast.Assign) and len(st.targets) == 1 and isinstance(st.targets[0], ast.Name):
+                v = st.value
+                name = st.targets[0].id
+                if isinstance(v, ast.Call) and isinstance(v.func, ast.Name) and v.func.id == "Current" and len(v.args) == 1 \
+                        and isinstance(v.args[0], ast.Name) and v.args[0].id in self.station_lists:
+                    self.env[name] = "<current of all stations>"
+                elif isinstance(v, ast.Name) and v.id in self.station_lists:
+                    self.station_lists.add(name)
+                else:
+                    self.env[name] = self.ex(v)
+            elif isinstance(st, ast.For) and isinstance(st.target, ast.Name):
+                it = st.iter.id if isinstance(st.iter, ast.Name) else None
+                self.walk(st.body, loop_over=(st.target.id, it in self.station_lists))
+            elif isinstance(st, ast.Expr) and isinstance(st.value, ast.Call) and isinstance(st.value.func, ast.Attribute):
+                call = st.value
+                if call.func.attr == "register_evse":
+                    a = self._args(call, ["evse", "voltage", "phase_angle"])
+                    ev = a.get("evse")
+                    typed = (isinstance(ev, ast.Call) and isinstance(ev.func, ast.Name) and ev.func.id == "get_evse_by_type"
+                             and len(ev.args) == 2 and isinstance(ev.args[0], ast.Name) and loop_over is not None
+                             and ev.args[0].id == loop_over[0] and isinstance(ev.args[1], ast.Name) and ev.args[1].id == "evse_type")
+                    self.reg.append((self.ex(a["voltage"]) if "voltage" in a else ".unknown",
+                                     self.ex(a["phase_angle"]) if "phase_angle" in a else ".unknown",
+                                     bool(loop_over and loop_over[1]), typed))
+                elif call.func.attr == "add_constraint":
+                    a = self._args(call, ["current", "limit", "name"])
+                    cur = a.get("current")
+                    covers = isinstance(cur, ast.Name) and self.env.get(cur.id) == "<current of all stations>"
+                    nm = a.get("name")
+                    self.cons.append((self.ex(a["limit"]) if "limit" in a else ".unknown",
+                                      nm.value if isinstance(nm, ast.Constant) and isinstance(nm.value, str) else None, covers))
+
+
+def _simple_ast():
+    src = open(os.path.join(REPO, SITES_DIR, SIMPLE_FILE)).read()
+    tree = ast.parse(src)
+    fn = next(st for st in tree.body if isinstance(st, ast.FunctionDef) and st.name == "simple_acn")
+    rd = _SimpleAst(src, fn)
+    rd.walk(fn.body)
+    return rd
+
+
+def _opt_pair(x):
+    return "none" if x is None else f"(some {_pair(x)})"
+
+
+def gen_simple() -> str:
+    if REPO not in sys.path:
+        sys.path.insert(0, REPO)
+    import contextlib
+    import io
+    import numpy as np
+    out = [SIMPLE_HEADER]
+    # ---- AST: what the body passes to register_evse / add_constraint
+    rd = _simple_ast()
+    ok_shape = len(rd.reg) == 1 and len(rd.cons) == 1 and rd.reg[0][2] and rd.reg[0][3] and rd.cons[0][2]
+    if ok_shape:
+        volt_e, ang_e = rd.reg[0][0], rd.reg[0][1]
+        lim_e, cname = rd.cons[0][0], rd.cons[0][1]
+    else:
+        volt_e = ang_e = lim_e = ".unknown"
+        cname = None
+    out.append("/-- the body of `simple_acn` has the documented shape: ONE `register_evse(get_evse_by_type(id, evse_type), …)` in a loop over\n"
+               "    `station_ids`, ONE `add_constraint(Current(station_ids), …)` -/\n"
+               f"def bodyShapeOk : Bool := {'true' if ok_shape else 'false'}\n")
+    out.append(f"/-- second argument of `register_evse` -/\ndef voltageExpr : SExpr := {volt_e}\n")
+    out.append(f"/-- third argument of `register_evse` (phase angle, degrees) -/\ndef angleExpr : SExpr := {ang_e}\n")
+    out.append(f"/-- `limit` argument of `add_constraint`, local names resolved -/\ndef limitExpr : SExpr := {lim_e}\n")
+    out.append("def constraintName : String := " + (_strs([cname])[1:-1] if cname is not None else '""') + "\n")
+    # ---- signature defaults (live function)
+    mod = importlib.import_module("acnportal.acnsim.network.sites." + SIMPLE_FILE[:-3])
+    fn = mod.simple_acn
+    sig = _signature_defaults(fn)
+    dv, dc, dt = sig.get("voltage"), sig.get("aggregate_cap"), sig.get("evse_type")
+    out.append("/-- defaults of the live signature (`none`: not a plain number) -/")
+    out.append(f"def defaultVoltage : Option (Int × Nat) := {_opt_pair(dv if _is_num(dv) else None)}")
+    out.append(f"def defaultCap : Option (Int × Nat) := {_opt_pair(dc if _is_num(dc) else None)}")
+    out.append("def defaultEvseType : String := " + (_strs([dt])[1:-1] if isinstance(dt, str) else '""') + "\n")
+    # ---- executed calls
+    insts = []
+    notes = []
+    with warnings.catch_warnings(), contextlib.redirect_stdout(io.StringIO()):
+        warnings.simplefilter("ignore")
+        for ids, kw in SIMPLE_CALLS:
+            try:
+                net = fn(list(ids), **kw)
+                M = np.array(net.constraint_matrix, dtype=float)
+                if M.ndim != 2:
+                    M = M.reshape((len(net.constraint_index), -1))
+                rows = []
+                for i in range(M.shape[0]):
+                    ent = []
+                    for j in range(M.shape[1]):
+                        if M[i, j] != 0:
+                            fr = Fraction(float(M[i, j]))
+                            ent.append(f"({j}, {fr.numerator}, {fr.denominator})")
+                    rows.append("[" + ", ".join(ent) + "]")
+                mx = sorted({Fraction(float(x)) for x in net.max_pilot_signals})
+                lv = sorted({Fraction(float(x)) for a in net.allowable_rates for x in a})
+                insts.append(
+                    f"{{ ids := {_strs(ids)}, evseType := {_strs([kw.get('evse_type', '')])[1:-1]}, "
+                    f"voltage := {_opt_pair(kw.get('voltage'))}, cap := {_opt_pair(kw.get('aggregate_cap'))},\n    "
+                    f"stations := {_strs(net.station_ids)},\n    "
+                    f"angles := [{', '.join(_pair(float(a)) for a in net._phase_angles)}],\n    "
+                    f"voltages := [{', '.join(_pair(float(v)) for v in net._voltages)}],\n    "
+                    f"conNames := {_strs(list(net.constraint_index))}, rows := [{', '.join(rows)}],\n    "
+                    f"limits := [{', '.join(_pair(float(x)) for x in net.magnitudes)}],\n    "
+                    f"maxRates := [{', '.join(_pair(x) for x in mx)}], "
+                    f"continuous := {'true' if bool(all(net.is_continuous)) else 'false'}, "
+                    f"levels := [{', '.join(_pair(x) for x in lv)}] }}")
+            except Exception as e:  # noqa: BLE001 — the obligation `simple_instances` (a fixed count) then fails
+                notes.append(f"simple_acn({len(ids)} ids, {kw}) raised {type(e).__name__}: {e}".replace("-/", "- /"))
+    out.append("/-- the executed calls" + "".join("\n    NOT RECORDED: " + n for n in notes) + " -/\n"
+               "def insts : List Inst := [\n  " + ",\n  ".join(insts) + "]\n")
+    out.append("end Acn.Gen.SimpleAcn")
+    return "\n".join(out) + "\n"
+
+
 if __name__ == "__main__":
-    sys.stdout.write(gen_sites())
+    sys.stdout.write(gen_simple() if "--simple" in sys.argv else gen_sites())
